@@ -294,7 +294,12 @@ func init() {
 
 		// SSE: the scanner's field keys (`eventKey = []byte("event")` ...) and the writer's prefixes.
 		sse := map[string]string{}
-		if fd := c.Func("mcp", "", "scanEvents"); fd != nil {
+		// the keys are local variables of the scanner (scanEvents, or the function it delegates to)
+		for _, fn := range []string{"scanEvents", "scanEventsT"} {
+			fd := c.Func("mcp", "", fn)
+			if fd == nil || fd.Body == nil {
+				continue
+			}
 			ast.Inspect(fd.Body, func(n ast.Node) bool {
 				vs, ok := n.(*ast.ValueSpec)
 				if !ok {
